@@ -3,3 +3,4 @@ pub mod edit;
 pub mod matchw;
 pub mod windows;
 pub mod tok;
+pub mod batch;
